@@ -163,6 +163,8 @@ theorem fireOf_congr_operands (sp : Spec) (ev : Events) {look look' : Nat → Op
     rw [fireOf_gate _ _ _ _ hd, fireOf_gate _ _ _ _ hd, h s (by simp [operands, hd])]
   | hold s k =>
     rw [fireOf_hold _ _ _ _ hd, fireOf_hold _ _ _ _ hd, h s (by simp [operands, hd])]
+  | holdz s c =>
+    rw [fireOf_holdz _ _ _ _ hd, fireOf_holdz _ _ _ _ hd, h s (by simp [operands, hd])]
   | once s =>
     rw [fireOf_once _ _ _ _ hd, fireOf_once _ _ _ _ hd, h s (by simp [operands, hd])]
   | updates c =>
@@ -253,6 +255,7 @@ theorem fireOf_quiet_silent (sp : Spec) (ev : Events) {look : Nat → Option (Op
   | snapshotn s cs => rw [fireOf_snapshotn _ _ _ _ hd, h s (by simp [operands, hd])]; rfl
   | gate s c => rw [fireOf_gate _ _ _ _ hd, h s (by simp [operands, hd])]; rfl
   | hold s k => rw [fireOf_hold _ _ _ _ hd, h s (by simp [operands, hd])]
+  | holdz s c => rw [fireOf_holdz _ _ _ _ hd, h s (by simp [operands, hd])]
   | once s =>
     rw [fireOf_once _ _ _ _ hd, h s (by simp [operands, hd])]
     split <;> rfl
